@@ -543,3 +543,83 @@ def generic_bodies(ctx):
     else:
         ctx.inconclusive.append("vacuity: correlate never completed")
     ctx.sample({"paths": E.paths})
+
+
+# ---------------------------------------------------------------------------------------
+# O7: several USE statements for one module in one scope are cumulative (F2008 11.2.2): local names given by a rename in ANY of them are
+# accessible; entities not renamed anywhere keep their own name when one of the statements has no ONLY
+# ---------------------------------------------------------------------------------------
+USE_A = [("use shapes", "all"), ("USE SHAPES", "all"), ("use shapes, only: make", "only"), ("implicit none", None)]
+USE_B = [("use shapes, only: ring => circle", ["ring"]), ("use shapes, ring => circle", ["ring"]), ("use shapes, only: unit => radius, ring => circle", ["ring", "unit"]),
+         ("implicit none", [])]
+
+
+def _cum_files(ua, ub):
+    return {"a.f90": ["module shapes", "type circle", "integer :: c", "end type circle", "real :: radius", "contains", "subroutine make()",
+                      "end subroutine make", "end module shapes"],
+            "b.f90": ["module client", ua, ub, "type(ring) :: v", "contains", "subroutine go()", "call make()", "end subroutine go", "end module client"]}
+
+
+def cum_rule(a_mode, b_locals):
+    ring = "ring" in b_locals                                # the rename makes `circle` accessible as `ring`, whatever the other statement says
+    make = a_mode in ("all", "only") or False                # `make` by its own name: plain USE, or named in the ONLY list
+    if a_mode is None and b_locals and True:
+        make = False
+    return ring, make
+
+
+def _cum_observe(p):
+    cl = [m for m in p.modules if str(m.name).lower() == "client"][0]
+    v = cl.variables[0].proto[0]
+    go = cl.subroutines[0]
+    return (not isinstance(v, str) and v is not None), any(not isinstance(c, str) for c in go.calls)
+
+
+def replay_cum(w):
+    import ford.sourceform as sf
+    old = sf.namelist
+    sf.namelist = sf.NameSelector()
+    try:
+        p = parserh.project_concrete(_cum_files(w["use_a"], w["use_b"]), **CSET)
+        got = list(_cum_observe(p))
+    finally:
+        sf.namelist = old
+    return got != list(w["expected"]), {"use statements": [w["use_a"], w["use_b"]], "type(ring) resolved / call make resolved": got,
+                                        "standard": list(w["expected"])}
+
+
+@obligation("C06", "O7.cumulative-use-statements", engine="SX(CV)", timeout=900)
+def cumulative(ctx):
+    """two symbolic USE statements for the same module in one scope (plain / ONLY, then ONLY-with-rename / rename): the local name given by
+    the rename resolves, and `make` resolves when the first statement makes it accessible"""
+    import ford.sourceform as sf
+
+    ctx.encode_fn(sf.FortranCodeUnit.correlate)
+    ctx.encode_fn(sf.FortranModule.get_used_entities)
+    ctx.bounds.update({"first statements": len(USE_A), "second statements": len(USE_B)})
+
+    def h(E):
+        a = CV.choice(E, "use_a", USE_A)
+        b = CV.choice(E, "use_b", USE_B)
+        # `make`: named in / covered by the first statement, or the second statement has no ONLY option (then every public entity is accessible)
+        want = choice.apply(lambda am, bt, bl: (("ring" in bl), am is not None or (bt.startswith("use") and "only" not in bt)), a[1], b[0], b[1])
+        E.e.snapshot = lambda m: {"use_a": choice.value_in_model(m, a)[0], "use_b": choice.value_in_model(m, b)[0],
+                                  "expected": list(choice.value_in_model(m, want))}
+        got = parserh.project(_cum_files(a[0], b[0]), post=_cum_observe, **CSET)
+        E.reachable("correlated")
+        E.require(choice.apply(lambda w_: bool(got[0]) == w_[0], want), "the local name given by a rename in the second USE statement is not accessible")
+        E.require(choice.apply(lambda w_: bool(got[1]) == w_[1], want), "`make` accessibility differs from what the first USE statement gives")
+
+    E = sym.Engine(ctx, max_paths=5000, incremental=True)
+    found = E.explore(h)
+    seen = set()
+    for (label, m, pc), snap in zip(found, E.snapshots):
+        if label in seen or not snap:
+            continue
+        seen.add(label)
+        ctx.report(label, snap, replay_cum)
+    if E.reached.get("correlated"):
+        ctx.twins += 1
+    else:
+        ctx.inconclusive.append("vacuity: correlate never completed")
+    ctx.sample({"paths": E.paths})
